@@ -32,6 +32,8 @@ type c36dRun struct {
 	Lifetime []int `json:"lifetime_counts"`
 	WriteMs  int   `json:"write_every_ms"`
 	RunMs    int   `json:"run_ms"`
+	LateDial int   `json:"late_dialers"`
+	LateNs   int   `json:"late_stop_after_ns"`
 }
 
 func (r *c36dRun) Sample() any { return r }
@@ -47,6 +49,8 @@ func (r *c36dRun) Setup(s *sim.Sim) {
 	}
 	r.WriteMs = sim.Pick(p, 2, 5, 11)
 	r.RunMs = sim.Pick(p, 1500, 2500, 4000)
+	r.LateDial = p.Intn(4)
+	r.LateNs = sim.Pick(p, 0, 5, 20, 50, 100, 200, 400, 800, 1600)
 }
 
 func (r *c36dRun) Main(s *sim.Sim) {
@@ -171,6 +175,29 @@ func (r *c36dRun) Main(s *sim.Sim) {
 	s.Teardown()
 	a.Close(ctx)
 	w.Close(ctx)
+	if s.Free() {
+		// race mode only: connections that arrive while the server shuts
+		// down (the deferred stop runs LateNs fake nanoseconds after the
+		// dialers start), so that the accept loop and the registration of a
+		// new channel run against Server.Close
+		for k := 0; k < r.LateDial; k++ {
+			go func(k int) {
+				time.Sleep(time.Duration(k*r.LateNs/2) * time.Nanosecond)
+				c, err := newClient(opcua.AutoReconnect(false), opcua.RequestTimeout(time.Second))
+				if err != nil {
+					return
+				}
+				cctx, cancel := context.WithTimeout(ctx, 2*time.Second)
+				defer cancel()
+				s.Probe("late-dial")
+				if c.Connect(cctx) == nil {
+					s.Probe("late-dial-connected")
+					c.Close(ctx)
+				}
+			}(k)
+		}
+		time.Sleep(time.Duration(r.LateNs) * time.Nanosecond)
+	}
 }
 
 func (r *c36dRun) Finish(s *sim.Sim) {}
